@@ -286,6 +286,7 @@ pub fn dispatch(line: &str) -> String {
         "W_UpdateRes" => <StrapTag as FileEntry>::call(&req),
         "SetSpeedTrainSim" => <SetSpeedTrainSimTag as FileEntry>::call(&req),
         "TrainState" => <TrainStateTag as FileEntry>::call(&req),
+        "BrakingPoints" => <BrakingPointTag as FileEntry>::call(&req),
         "SpeedLimitTrainSim" => <SpeedLimitTrainSimTag as FileEntry>::call(&req),
         "<free>" => run_free(&req),
         "Vec<link_impl::Link>" => run::<Vec<crate::track::Link>>(&req, call_links),
